@@ -1,4 +1,5 @@
 import Stingray.Model.Decode
+import Stingray.Model.Facade
 import Stingray.Props.C02
 /-!
 # C04 — a field's width is what its decoder needs, and is the same wherever reported
@@ -101,3 +102,36 @@ example : calcsize .packedDecimal (numElts true 11 2) = some 7 := by decide
 example : calcsize .comp3 (numElts false 4 0) = some 3 := by decide     -- D8: was 2
 
 end Stingray.Decode
+
+/-! ## the computed record length is that of the layout bound NOW
+
+`COBOL_EBCDIC_Sheet.set_schema` (model: `Facade.EFile.setSchema`).  Without an explicit `lrecl` the length a sheet works with is the end
+of the layout just bound -- whatever layouts were bound to this workbook before, on this sheet or another (header / detail files). -/
+namespace Stingray.Facade
+
+theorem EFile.run_fst (f : EFile) (ls : List Nat) : (f.run ls).1 = f := by
+  induction ls generalizing f with
+  | nil => rfl
+  | cons l ls ih => simp [EFile.run, EFile.setSchema, ih]
+
+/-- **C04 (computed record length).** No explicit lrecl: after ANY history of earlier bindings the sheet's length is the layout's. -/
+theorem EFile.computed_length_is_current_layout (f : EFile) (h : f.given = none) (history : List Nat) (len : Nat) :
+    ((f.run history).1.setSchema len).2 = len := by
+  simp [EFile.run_fst, EFile.setSchema, h]
+
+/-- every call of a history answers as it would on a fresh workbook -/
+theorem EFile.run_pointwise (f : EFile) (ls : List Nat) : (f.run ls).2 = ls.map fun l => (f.setSchema l).2 := by
+  induction ls generalizing f with
+  | nil => rfl
+  | cons l ls ih => simp [EFile.run, EFile.setSchema, ih]
+
+/-- an explicit (non-zero) lrecl is used for every layout -/
+theorem EFile.explicit_lrecl_wins (n : Nat) (hn : n ≠ 0) (history : List Nat) (len : Nat) :
+    (((EFile.mk (some n)).run history).1.setSchema len).2 = n := by
+  simp [EFile.run_fst, EFile.setSchema, EFile.given, hn]
+
+example : ((EFile.mk none).run [4, 12, 12, 7]).2 = [4, 12, 12, 7] := by decide
+example : ((EFile.mk (some 0)).run [4, 12]).2 = [4, 12] := by decide
+example : ((EFile.mk (some 80)).run [4, 12]).2 = [80, 80] := by decide
+
+end Stingray.Facade
